@@ -105,6 +105,10 @@ pub fn template_programs() -> Vec<(String, Flags)> {
         "({L})(?<=\\1{I})!", "(?<=({L}){I})\\1?!", "(?<=\\1({L}))!",
         // loops around literals next to lookarounds
         "(?:{L}{I})+!", "(?:{L}){2}{I}!", "(?<=(?:{L}){2}{I})!",
+        // captures in a lookbehind in front of a counted alternation with arms of different length (the
+        // order in which the optimizer's unrolled copies are tried decides the capture), and a
+        // backreference directly after a lookbehind that captured
+        "(?<=(\\w*)(?:{L}|b{L}){1,2})!", "(?<=(.*?)(?:{L}|{L}b){1,3})!", "(\\w*?)(?:{L}|{L}b){1,2}!", "(?<=({L}))\\1!", "(?<=(\\w))\\1!", "(?<=(?<q>[{L}x]))\\k<q>!", "(?<=({L}){I})\\1!",
         // the literal itself inside a lookaround nested in a lookaround of the other / same direction
         "(?<=-(?={L}))", "(?<=-(?!{L}))-?", "(?<=(?={L})-)", "(?<=-(?={L}{I}))", "(?=(?<={L})!)", "(?=-(?<=-{L}-))", "(?<=(?<={L})-)", "(?<=(?=(?<=-){L}))", "(?<!-(?={L}))-?", "(?=(?=(?<={L}))!)", "(?<=-(?=(?:{L}|-)!))",
     ];
@@ -191,7 +195,7 @@ pub fn foldref_haystacks(pattern: &str) -> Vec<String> {
     v
 }
 
-const TEMPLATE_HAY_LITS: [&str; 15] = ["a", "ab", "abc", "abcdefghijklmnopq", "abcdefghijklmnopqrstuvwxyz0123456", "k", "K", "\u{212A}", "é", "É", "aé\u{10000}b", "kKs", "abcdefghijklmnopqr", "aé", "1\u{FE0F}\u{20E3}"];
+const TEMPLATE_HAY_LITS: [&str; 17] = ["a", "ab", "AB", "aB", "abc", "abcdefghijklmnopq", "abcdefghijklmnopqrstuvwxyz0123456", "k", "K", "\u{212A}", "é", "É", "aé\u{10000}b", "kKs", "abcdefghijklmnopqr", "aé", "1\u{FE0F}\u{20E3}"];
 
 /// Haystacks for template programs: the literals themselves followed / preceded by the
 /// characters the skeletons look for.
@@ -200,7 +204,7 @@ pub fn template_haystacks() -> Vec<String> {
     for l in TEMPLATE_HAY_LITS {
         let l = l.to_string();
         for pre in ["", "b", "x", "-"] {
-            for post in ["!", "!!", "b!", "c!", "", "-", "-!"] {
+            for post in ["!", "!!", "b!", "c!", "", "-", "-!", "a!"] {
                 v.push(format!("{}{}{}", pre, l, post));
                 v.push(format!("{}{}{}{}", pre, l, l, post));
             }
